@@ -138,6 +138,17 @@ func cmdCheck(args []string) {
 		replayMode = true
 		fmt.Printf("REPLAY %s\n", replayFile)
 	}
+	// scratch directories of earlier runs of this check that were killed
+	if ents, err := os.ReadDir(filepath.Join(vd, ".work")); err == nil {
+		for _, e := range ents {
+			if e.IsDir() && strings.HasPrefix(e.Name(), id+"-") {
+				pid := strings.TrimPrefix(e.Name(), id+"-")
+				if _, err := os.Stat("/proc/" + pid); err != nil {
+					os.RemoveAll(filepath.Join(vd, ".work", e.Name()))
+				}
+			}
+		}
+	}
 	eng, err := LoadEngine(repoDir(), nil, extSpecs())
 	if err != nil {
 		fmt.Fprintln(os.Stderr, "ENGINE-ERROR loading /repo:", err)
